@@ -378,6 +378,23 @@ def _defaults_at_definition(v: Callable, lm: ast.Lambda) -> bool:
     defaults = getattr(v, "__defaults__", None) or ()
     kw_defaults = getattr(v, "__kwdefaults__", None) or {}
 
+    n_positional = len(lm.args.posonlyargs) + len(lm.args.args)
+    if len(defaults) != len(lm.args.defaults) and len(defaults) <= n_positional:
+        # `f.__defaults__ = (..)` with another number of values than the `def` wrote: python
+        # gives them to the LAST parameters. Line the written ones up with those (a parameter
+        # that had none written is sent by value - or not at all if it is something called).
+        written = [None] * max(0, len(defaults) - len(lm.args.defaults)) + list(
+            lm.args.defaults[max(0, len(lm.args.defaults) - len(defaults)) :]
+        )
+        if any(
+            w is None and (callable(d) or isinstance(d, (type, ModuleType)))
+            for d, w in zip(defaults, written)
+        ):
+            return False
+        lm.args.defaults = [
+            w if w is not None else ast.Constant(value=None) for w in written
+        ]  # type: ignore
+
     try:
         names_now = global_getclosurevars(v)
         names_now = {**names_now.builtins, **names_now.globals, **names_now.nonlocals}
